@@ -168,7 +168,8 @@ func (sess *session) delRef(ctx context.Context, fid Fid,
 	ref.Lock()
 	defer ref.Unlock()
 	if ref.Ent == nil {
-		return nil
+		// the fid was only reserved by an attach/walk that has failed since.
+		return ErrUnknownfid
 	}
 
 	return delRefAction(ctx, ref, remove)
